@@ -4,6 +4,7 @@ import (
 	"bytes"
 	"cmp"
 	"fmt"
+	gotoken "go/token"
 	"io"
 	"os"
 	"path"
@@ -291,6 +292,76 @@ func (f File) Validate() error {
 	return nil
 }
 
+// reservedPrivateNames are the identifiers a generated file already uses below package scope or
+// imports: with private definitions a record or enum is declared under its own name with the
+// first letter lower-cased, and must not turn out to be one of these or a Go keyword.
+var reservedPrivateNames = map[string]struct{}{
+	// packages a generated file may import
+	"bebop": {}, "io": {}, "iohelp": {}, "math": {}, "sync": {}, "time": {}, "unsafe": {},
+	// variables of the generated functions
+	"at": {}, "baseReader": {}, "bbp": {}, "bodyLen": {}, "buf": {}, "elem": {}, "err": {},
+	"i": {}, "ior": {}, "iow": {}, "k": {}, "ln": {}, "r": {}, "tmp": {}, "v": {}, "w": {},
+	// predeclared identifiers the generated code uses
+	"bool": {}, "byte": {}, "copy": {}, "error": {}, "float32": {}, "float64": {}, "int": {}, "int16": {},
+	"int32": {}, "int64": {}, "int8": {}, "len": {}, "make": {}, "new": {}, "nil": {}, "string": {},
+	"uint": {}, "uint16": {}, "uint32": {}, "uint64": {}, "uint8": {},
+}
+
+// validatePrivateNames verifies that every definition of f can be declared under its private name.
+func (f File) validatePrivateNames() error {
+	check := func(kind, name string) error {
+		private := unexposeName(name)
+		_, reserved := reservedPrivateNames[private]
+		// generated loop variables and lengths are numbered: k1, v2, i3, ln4, elem5, ...
+		numbered := strings.TrimRight(private, "0123456789")
+		if numbered != private {
+			switch numbered {
+			case "i", "k", "v", "ln", "elem":
+				reserved = true
+			}
+		}
+		if reserved || gotoken.IsKeyword(private) {
+			return fmt.Errorf("%s %s cannot be generated as a private definition: %q is reserved in generated code", kind, name, private)
+		}
+		return nil
+	}
+	for _, en := range f.Enums {
+		if en.Namespace == "" {
+			if err := check("enum", en.Name); err != nil {
+				return err
+			}
+		}
+	}
+	for _, st := range f.Structs {
+		if st.Namespace == "" {
+			if err := check("struct", st.Name); err != nil {
+				return err
+			}
+		}
+	}
+	for _, msg := range f.Messages {
+		if msg.Namespace == "" {
+			if err := check("message", msg.Name); err != nil {
+				return err
+			}
+		}
+	}
+	for _, un := range f.Unions {
+		if un.Namespace != "" {
+			continue
+		}
+		if err := check("union", un.Name); err != nil {
+			return err
+		}
+		for _, idx := range sortedKeys(un.Fields) {
+			if err := check("union branch", un.Fields[idx].name()); err != nil {
+				return err
+			}
+		}
+	}
+	return nil
+}
+
 // sortedKeys returns the keys of m in increasing order. Validate walks its maps in this order so
 // that which of several errors it reports does not change from one call to the next.
 func sortedKeys[K cmp.Ordered, V any](m map[K]V) []K {
@@ -456,6 +527,11 @@ func (f File) Generate(inputWriter io.Writer, settings GenerateSettings) error {
 
 	if err := f.Validate(); err != nil {
 		return fmt.Errorf("cannot generate file: %w", err)
+	}
+	if settings.PrivateDefinitions {
+		if err := f.validatePrivateNames(); err != nil {
+			return fmt.Errorf("cannot generate file: %w", err)
+		}
 	}
 	settings.typeMarshallers = f.typeMarshallers()
 	settings.typeByters = f.typeByters()
